@@ -285,6 +285,40 @@ pub fn run(args: &Args, rep: &mut Report) {
             }
         }
     }
+    // span ladder: calendars whose first and last stored years are W years apart, W = 1..70, then
+    // 2^k - 1, 2^k, 2^k + 1 up to 2^18, and the whole range chrono can represent; built by appending
+    // (increasing years), by prepending (decreasing) and from the middle outwards
+    if !reduced {
+        let mut spans: Vec<i32> = (1..=70).collect();
+        for k in 7..=18 {
+            spans.extend([(1 << k) - 1, 1 << k, (1 << k) + 1]);
+        }
+        spans.push(262_142 + 262_143);
+        let mut idx = 0u64;
+        for w in spans {
+            for variant in 0..3u64 {
+                idx += 1;
+                if (idx - 1) % args.of.max(1) != args.worker {
+                    continue;
+                }
+                let y0 = if w >= 262_142 + 262_143 { -262_143 } else { [1900 - w / 2, -w + 3, 9999 - w][variant as usize].clamp(-262_143, 262_142 - w) };
+                let (a, b, m) = (d(y0, 12, 31), d(y0 + w, 1, 1), d(y0 + w / 2, 2, 28));
+                let hist = match variant {
+                    0 => vec![a, m, b],
+                    1 => vec![b, m, a],
+                    _ => vec![m, a, b, a],
+                };
+                let probes = [a.pred_opt().unwrap_or(a), a, m, b, b.succ_opt().unwrap_or(b), d(y0 + w / 3, 6, 15)];
+                rep.count("span_ladder_histories");
+                rep.max("max_year_span", w as u64);
+                rep.begin(&format!("span ladder: {hist:?}"));
+                run_history(rep, &hist, &probes, idx);
+                if rep.full() {
+                    return;
+                }
+            }
+        }
+    }
     let n = if reduced { args.cases(60, 600) } else { args.cases(600_000, 12_000_000) };
     for k in 0..n {
         let mut r = Rng::new(args.seed, args.worker, k);
